@@ -216,7 +216,7 @@ def rule_lzma2_end(facts):
     found = False
     for (bb, t, z, nz) in gs:
         s = pat.cmp_sides(t)
-        if s and s[0] == "Eq" and pat.has_call(s[1], "read_u8") and s[2] == ("const", 0):
+        if s and s[0] == "Eq" and pat.has_call(s[1], "read_u8") and s[2] == ("const", 0) and not pat.spine_ops(s[1]):
             found = True
             r.sites += 1
             reach = c.reachable_from(nz)
